@@ -9,6 +9,7 @@
    `raw_of` generalises link/LinkChain.raw_of_kw (one rule family, no UNTIL) to all keyword records. *)
 From Coq Require Import ZArith List Bool Lia.
 From V Require Import base.Cal rstr.RstrPrim rstr.RstrModel rstr.RstrSpec rstr.RstrThmStr rstr.RstrThmCtor rstr.RstrThmWf.
+From V Require rstr.RstrThmDate.
 From V Require rr.RRBase rr.RRNorm.
 Import ListNotations.
 Open Scope Z_scope.
@@ -139,10 +140,15 @@ Proof.
 Qed.
 
 (* ---- the bridge ---- *)
-Theorem ctor_is_normalize ev st kw r : ctor ev (Some st) kw = Ok r ->
+Lemma memZ_zero l : RRBase.memZ 0 l = existsb (fun x => x =? 0) l.
+Proof. unfold RRBase.memZ. induction l as [|x l IH]; [reflexivity|]. cbn [existsb]. rewrite IH, Z.eqb_sym. reflexivity. Qed.
+
+(* dd st <> 0: the start is a date (rr's model applies the BYMONTHDAY=0 test of 55654b4 also to the day
+   taken from the start; real starts have a day >= 1) *)
+Theorem ctor_is_normalize ev st kw r : ctor ev (Some st) kw = Ok r -> dd st <> 0 ->
   exists raw, raw_of ev st kw = Some raw /\ RRNorm.normalize raw = RRBase.Ok (rule_of r).
 Proof.
-  intro H.
+  intros H Hd0. pose proof (ctor_zero_check ev st kw r H) as Hzc.
   destruct (ctor_inv ev st kw r H) as
     [fq [rm [om [ry [oy [re [oe [rp [rn [omd [rw [ow [rwd [rnwd [owd [rh [oh [rmi [omi [rs [os Hx]]]]]]]]]]]]]]]]]]]]].
   cbv zeta in Hx.
@@ -222,6 +228,13 @@ Proof.
       + rewrite G. injection Hwd as <- <- _. reflexivity.
       + injection Hwd as <- <- _. reflexivity. }
   rewrite Ewd. cbv beta iota.
+  (* BYMONTHDAY = 0 *)
+  assert (Ez : RRBase.memZ 0 (RRNorm.opt_list (if nodayparts kw && ((fq =? 0) || (fq =? 1)) then Some [dd st]
+                                                  else k_bymonthday kw)) = false).
+  { rewrite memZ_zero. destruct (nodayparts kw && ((fq =? 0) || (fq =? 1))).
+    - cbn. replace (dd st =? 0) with false by lia. reflexivity.
+    - destruct (k_bymonthday kw); [exact Hzc|reflexivity]. }
+  rewrite Ez. cbn [RRBase.bind].
   (* the time set *)
   subst r. unfold rule_of.
   cbn [r_freq r_interval r_wkst r_count r_until r_dtstart r_bysetpos r_bymonth r_byyearday r_byeaster r_bymonthday
@@ -237,14 +250,14 @@ Qed.
 
 (* equal rstr rule state => equal RRNorm rule => equal occurrences of C01's iteration function *)
 Corollary same_state_same_occurrences ev st kw st' kw' r :
-  ctor ev (Some st) kw = Ok r -> ctor ev (Some st') kw' = Ok r ->
+  ctor ev (Some st) kw = Ok r -> ctor ev (Some st') kw' = Ok r -> dd st <> 0 -> dd st' <> 0 ->
   exists raw raw' rl rl',
     raw_of ev st kw = Some raw /\ raw_of ev st' kw' = Some raw' /\
     RRNorm.normalize raw = RRBase.Ok rl /\ RRNorm.normalize raw' = RRBase.Ok rl' /\ rl = rl' /\
     forall (A : Type) (iterate : RRNorm.rule -> A), iterate rl = iterate rl'.
 Proof.
-  intros H H'. destruct (ctor_is_normalize ev st kw r H) as [raw [E N]].
-  destruct (ctor_is_normalize ev st' kw' r H') as [raw' [E' N']].
+  intros H H' D D'. destruct (ctor_is_normalize ev st kw r H D) as [raw [E N]].
+  destruct (ctor_is_normalize ev st' kw' r H' D') as [raw' [E' N']].
   exists raw, raw', (rule_of r), (rule_of r). repeat split; assumption.
 Qed.
 
@@ -267,8 +280,15 @@ Proof.
   intros H Hr Hf Ha Hw Ho1 Ho2 Ho3 Ho4.
   pose proof (str_roundtrip_args ev o st kw r H Hr Hf Ha Hw Ho1 Ho2 Ho3 Ho4) as P.
   pose proof (ctor_idem ev st kw r H Hf Ha) as H'.
-  destruct (ctor_is_normalize ev st kw r H) as [raw [E N]].
-  destruct (ctor_is_normalize ev _ _ r H') as [raw' [E' N']].
+  assert (D : dd st <> 0).
+  { unfold wf_start_kw in Hw. do 5 (apply andb_true_iff in Hw as [Hw ?]).
+    match goal with V : valid_dt st = true |- _ => destruct (RstrThmDate.valid_dt_bounds st V) as [_ [_ [_ [? _]]]] end. lia. }
+  assert (D' : dd (r_dtstart r) <> 0).
+  { destruct (ctor_inv ev st kw r H) as
+      [fq [rm [om [ry [oy [re [oe [rp [rn [omd [rw [ow [rwd [rnwd [owd [rh [oh [rmi [omi [rs [os Hx]]]]]]]]]]]]]]]]]]]]].
+    cbv zeta in Hx. destruct Hx as [_ [_ [_ [_ [_ [_ [_ [_ [_ [_ [_ [_ [_ Hrr]]]]]]]]]]]]]. subst r. exact D. }
+  destruct (ctor_is_normalize ev st kw r H D) as [raw [E N]].
+  destruct (ctor_is_normalize ev _ _ r H' D') as [raw' [E' N']].
   exists r, raw, raw', (rule_of r), (rule_of r). repeat split; assumption.
 Qed.
 
